@@ -112,7 +112,37 @@ def translate_all(ctx, probes=()):
         ctx.data["harness_error"] = err
     ctx.data["ext"] = ext
     _common.emit_findings(ctx, ext)
+    reference_parse_operand(ctx, T)
     return T, fails
+
+
+def reference_parse_operand(ctx, T):
+    """The Lean tables were emitted from the translation of `binary/autogen_parse_operand.rs` above, so model and code agree on it by
+    construction — and a generator/oracle fed with the same translation would be blind to a change *of that file* (an arm that reads
+    the right words into the wrong `Operand` variants, parameter rows of a mask in another order). The generators and oracles therefore
+    take the operand-kind table from the pinned snapshot of the generator's output for this grammar (reference/pinned-T.json, the
+    stand-in for the Khronos grammar, DESIGN §7); whether the translation still equals it is an obligation of C02/C03/C17."""
+    if "parse_operand" not in T:
+        return
+    ref = json.load(open(os.path.join(VERIF, "reference", "pinned-T.json")))["parse_operand"]
+    cur = json.loads(json.dumps(T["parse_operand"]))
+    diffs = []
+    for part, (a, b) in enumerate(zip(cur, ref)):
+        for k in sorted(set(a) | set(b)):
+            if a.get(k) != b.get(k):
+                diffs.append(f"{k}: {json.dumps(a.get(k))[:160]} (pinned: {json.dumps(b.get(k))[:160]})")
+    ctx.data["parse_operand_diffs"] = diffs
+    if diffs:
+        T["parse_operand"] = load_pinned_T()["parse_operand"]
+
+
+def oblige_parse_operand(ctx):
+    """obligation + issue for `reference_parse_operand`; returns True when the translation equals the pinned table"""
+    diffs = ctx.data.get("parse_operand_diffs")
+    if diffs is None:
+        return True
+    ctx.oblige("reference: binary/autogen_parse_operand.rs assigns every operand kind the Operand variants, decoder calls and parameter rows (in order) of the pinned grammar", not diffs)
+    return not diffs
 
 
 def translate_sources(ctx):
@@ -385,6 +415,20 @@ def prove(ctx, module, theorems, extra_targets=(), files=()):
                 failing.append((t, {"file": module, "line": 0, "msg": f"depends on axioms {sorted(a - ALLOWED_AXIOMS)}"}))
             else:
                 axioms_seen |= a
+    if ok and ctx.tier == "thorough":
+        # independent re-check of the compiled property modules (declarations replayed through the kernel by `leanchecker`)
+        mods = sorted({module} | {f[:-5].replace("/", ".") for f in files if f.startswith("Rspirv/Props/") and f.endswith(".lean")})
+        from concurrent.futures import ThreadPoolExecutor
+
+        def recheck(m):
+            p = subprocess.run(["lake", "env", "leanchecker", m], cwd=LEAN, capture_output=True, text=True)
+            return m, p.returncode, (p.stdout + p.stderr)[-600:]
+        with ThreadPoolExecutor(max_workers=8) as ex:
+            for m, rc, out in ex.map(recheck, mods):
+                ctx.oblige(f"leanchecker:{m}", rc == 0)
+                if rc != 0:
+                    failing.append((f"leanchecker:{m}", {"file": m, "line": 0, "msg": "leanchecker rejects the compiled module: " + out}))
+        ctx.coverage["leanchecker_modules"] = len(mods)
     fail_names = {n for n, _ in failing}
     for t in theorems:
         ctx.oblige(f"{module}.{t}", ok and t not in fail_names)
@@ -409,6 +453,11 @@ def load_known():
 def finish(ctx, level="proof", checker_cmd=None, rule="", trusted=None):
     known = [k for k in load_known() if k["property"] == ctx.prop and k.get("status") == "known"]
     known_keys = {k["key"]: k for k in known}
+    if ctx.prop in ("C02", "C03", "C06", "C17") and ctx.data.get("parse_operand_diffs") is not None:
+        diffs = ctx.data["parse_operand_diffs"]
+        if oblige_parse_operand(ctx) is False and not any(i.found_input and i.key not in known_keys for i in ctx.issues):
+            ctx.issue("reference:parse_operand", "binary/autogen_parse_operand.rs no longer assigns the operand kinds the variants / parameter rows of the pinned grammar: "
+                      + "; ".join(diffs[:3]), witness={"diffs": diffs[:20]})
     violations, known_hit = [], []
     for i in ctx.issues:
         if i.key in known_keys:
